@@ -32,6 +32,7 @@ import (
 	"errors"
 	"fmt"
 	"regexp"
+	"sort"
 	"strconv"
 	"strings"
 	"time"
@@ -600,8 +601,26 @@ func parseMonthName(parts []string, monthPos int) (string, error) {
 }
 
 var dateRegexp = regexp.MustCompile(
-	fmt.Sprintf(`(?i)^(%s|%s|%s)? ?(\d+ )?(\w+ )?(\d+)$`,
-		DateWordsAbout, DateWordsBefore, DateWordsAfter))
+	fmt.Sprintf(`(?i)^(%s)? ?(\d+ )?(\w+ )?(\d+)$`,
+		dateWordsPattern(DateWordsAbout, DateWordsBefore, DateWordsAfter)))
+
+// dateWordsPattern returns a regular expression that matches any of the words
+// literally (so "." is not a wildcard). Longer words are tried first so that
+// "after" is not read as "aft" followed by something else.
+func dateWordsPattern(wordLists ...string) string {
+	var words []string
+	for _, wordList := range wordLists {
+		for _, word := range strings.Split(wordList, "|") {
+			words = append(words, regexp.QuoteMeta(word))
+		}
+	}
+
+	sort.SliceStable(words, func(i, j int) bool {
+		return len(words[i]) > len(words[j])
+	})
+
+	return strings.Join(words, "|")
+}
 
 func parseDateParts(dateString string, isEndOfRange bool) Date {
 	parts := dateRegexp.FindStringSubmatch(dateString)
@@ -624,7 +643,7 @@ func parseDateParts(dateString string, isEndOfRange bool) Date {
 	}
 
 	day := Atoi(parts[dayPos])
-	month := time.Month(months[monthName])
+	month, monthIsKnown := months[monthName]
 	year := Atoi(parts[yearPos])
 
 	// Check the date is valid.
@@ -635,6 +654,15 @@ func parseDateParts(dateString string, isEndOfRange bool) Date {
 			IsEndOfRange: isEndOfRange,
 			Constraint:   DateConstraintFromString(parts[constraintPos]),
 			ParseError:   err,
+		}
+	}
+
+	// A word that is not a month must not be silently ignored.
+	if parts[monthPos] != "" && !monthIsKnown {
+		return Date{
+			IsEndOfRange: isEndOfRange,
+			Constraint:   DateConstraintFromString(parts[constraintPos]),
+			ParseError:   errors.New("the month is unknown"),
 		}
 	}
 
